@@ -1440,6 +1440,42 @@ pub fn fuzz(a: &HashMap<String, String>) -> i32 {
             }
         }
     }
+    // (c) sequences of packets: every ordered pair of distinct sample packets back to back in every phase (an unexpected
+    // packet must leave the client able to deal with the next one, whatever it is); thorough: also triples over one
+    // representative per packet type
+    for phase in phases {
+        for (na, a) in &samples {
+            for (nb, b) in &samples {
+                if na == nb {
+                    continue;
+                }
+                let mut two = a.clone();
+                two.extend_from_slice(b);
+                emit(&mut sink, phase, &format!("{}+{}", na, nb), &two, "eof");
+            }
+        }
+    }
+    if thorough {
+        let reps: Vec<&(String, Vec<u8>)> = samples
+            .iter()
+            .filter(|(n, _)| {
+                ["connack", "auth", "publish1", "publish2", "puback-1-short", "pubrec-2-rc", "pubrel-9-full", "pubcomp-2-short", "suback-3", "unsuback-4",
+                 "pingresp", "disconnect-rc", "subscribe"].contains(&n.as_str())
+            })
+            .collect();
+        for phase in phases {
+            for (na, a) in &reps {
+                for (nb, b) in &reps {
+                    for (nc, c) in &reps {
+                        let mut three = (*a).clone();
+                        three.extend_from_slice(b);
+                        three.extend_from_slice(c);
+                        emit(&mut sink, phase, &format!("{}+{}+{}", na, nb, nc), &three, "eof");
+                    }
+                }
+            }
+        }
+    }
     sink.finish();
     0
 }
